@@ -161,12 +161,12 @@ def layout_dir():
     return d
 
 # ------------------------------------------------------------------ translation
-def translate(fam, roots, stubs=(), keep_virtual=(), tag='', cuts=()):
+def translate(fam, roots, stubs=(), keep_virtual=(), tag='', cuts=(), need_globals=()):
     """IR -> C for the call closure of `roots`; functions matching `stubs` stay extern.
     returns (path to gen.c, info dict)"""
     ll = fam.build()
     ir2c = os.path.join(VERIF, 'irbmc', 'ir2c.py')
-    key = sha(ll, fread(ir2c), '\n'.join(roots), '\n'.join(stubs), '\n'.join(keep_virtual), '\n'.join(cuts))
+    key = sha(ll, fread(ir2c), '\n'.join(roots), '\n'.join(stubs), '\n'.join(keep_virtual), '\n'.join(cuts), '\n'.join(need_globals))
     d = os.path.join(CACHE, 'gen'); os.makedirs(d, exist_ok=True)
     out = os.path.join(d, '%s.%s.%s.c' % (fam.name, tag or 'g', key))
     with klock(out):
@@ -176,6 +176,7 @@ def translate(fam, roots, stubs=(), keep_virtual=(), tag='', cuts=()):
             for r in stubs: cmd += ['--stubre', r]
             for r in keep_virtual: cmd += ['--keep-virtual', r]
             for r in cuts: cmd += ['--cut', r]
+            for r in need_globals: cmd += ['--need-global', r]
             r = run(cmd)
             if r.returncode != 0: raise BuildError('ir2c failed: ' + r.stderr[-3000:])
             open(out + '.info', 'w').write(r.stderr)
@@ -313,7 +314,7 @@ def shape_defs(h, shape, tier):
 
 def prepare(h, workdir):
     """translate + assemble the single TU; returns (cfile, info)"""
-    gen, info = translate(h.fam, h.roots, h.stubs, h.keep_virtual, tag=re.sub(r'\W', '_', h.name), cuts=getattr(h, 'cuts', ()))
+    gen, info = translate(h.fam, h.roots, h.stubs, h.keep_virtual, tag=re.sub(r'\W', '_', h.name), cuts=getattr(h, 'cuts', ()), need_globals=getattr(h, 'need_globals', ()))
     os.makedirs(workdir, exist_ok=True)
     if getattr(h, 'pre', None): h.pre(workdir)
     cfile = os.path.join(workdir, re.sub(r'\W', '_', h.name) + '_' + sha(h.name)[:6] + '.c')      # distinct names may sanitise to the same string
